@@ -31,9 +31,13 @@ ASSUMPTIONS = ["VLoop ordering contract (validated against the real loop every r
                "aiofiles: a submitted call completes after an arbitrary delay independent of other submitted calls"]
 
 
-def messages(n):
+def messages(n, large=False):
     kinds = ["SetTextVector", "DefSwitchVector", "Message", "DelProperty"]
-    return [make_message(kinds[i % 4], "DEV", nonce=f"n{i}") for i in range(n)]
+    out = [make_message(kinds[i % 4], "DEV", nonce=f"n{i}") for i in range(n)]
+    if large:
+        # a BLOB-sized message first: whole-and-in-order must not depend on the size
+        out[0] = make_message("SetTextVector", "DEV", nonce="B" * 9000)
+    return out
 
 
 def draw_delays(d: Draw, n, tag):
@@ -62,7 +66,7 @@ def horizon_of(delays):
     return h + 6
 
 
-def tcp_server(n, stalled_second):
+def tcp_server(n, stalled_second, large=False):
     def body(d: Draw):
         loop, va = vloop.install_for_mode()
         never_future_support(va, loop)
@@ -70,7 +74,7 @@ def tcp_server(n, stalled_second):
         ConnectionHandler.connections = []
         from indi.routing.router import Router
         router = Router()
-        msgs = messages(n)
+        msgs = messages(n, large)
         delays1 = draw_delays(d, n, "drain")
         if MODE.real:
             delays1 = vloop.compress_instants(delays1 + [0])[:n]
@@ -107,12 +111,12 @@ def tcp_server(n, stalled_second):
     return body
 
 
-def tcp_client(n):
+def tcp_client(n, large=False):
     def body(d: Draw):
         loop, va = vloop.install_for_mode()
         never_future_support(va, loop)
         from indi.transport.client.tcp import ConnectionHandler
-        msgs = messages(n)
+        msgs = messages(n, large)
         delays = draw_delays(d, n, "drain")
         if MODE.real:
             delays = vloop.compress_instants(delays + [0])[:n]
@@ -175,6 +179,10 @@ def conditions(tier):
         out.append(Condition(f"tty/{n}", make_condition(tty(n), 0, 2 * n, 1),
                              about=f"{n} messages on the TTY channel, symbolic write/flush completion delays", encodes=ENC,
                              timeout=1800))
+    out.append(Condition("tcp-server/2-large", make_condition(tcp_server(2, False, True), 0, 2, 1),
+                         about="a 9 kB message followed by a small one on a TCP server connection", encodes=ENC, timeout=900))
+    out.append(Condition("tcp-client/2-large", make_condition(tcp_client(2, True), 0, 2, 1),
+                         about="a 9 kB message followed by a small one on the client connection", encodes=ENC, timeout=900))
     return out
 
 
